@@ -324,8 +324,13 @@ def history(n, s0, s1, s2, keep, every, o0, o1, o2, crash_at, retry_later):
       # ---- continue saving
       if retry_later == 0:
         nxt, ov = steps[i], ovs[i]
-      else:
+      elif retry_later == 1:
         nxt, ov = (max(list(seen) + [steps[i]]) + 1), False
+      else:
+        # an OLDER step than what is committed: must be rejected, nothing changes
+        nxt, ov = (min(list(seen) + [steps[i]]) - 1), False
+        if nxt < 0:
+          raise Reject()
       ok2, steps2 = ref_save(seen, nxt, keep, ev, ov)
       try:
         do_save(fs, nxt, 9, keep, ev, ov)
@@ -482,14 +487,14 @@ def obligations(tier):
       Ob('crash_and_retention', history,
          dict(n=I(1, nmax), s0=st, s1=st, s2=st, keep=I(1, 2),
               every=I(0, 2), o0=B(), o1=B(), o2=B(),
-              crash_at=I(-1, 12), retry_later=I(0, 1)),
+              crash_at=I(-1, 12), retry_later=I(0, 2)),
          split=('n', 's0', 's1', 'every') if quick else ('n', 's0', 's1', 's2',
                                                            'every'),
          timeout=900, funcs=F,
          bounds='<=%d saves, steps 0..%d, keep 1..%d, keep_every_n_steps in '
                 '{None,1,2%s}, overwrite per save, crash at FS op -1(no crash)..12 '
-                'of the last save incl. torn write, then retry same step or save a '
-                'later step' % (nmax, st.hi, 2, '')),
+                'of the last save incl. torn write, then retry same step / save a '
+                'later step / try an older step' % (nmax, st.hi, 2, '')),
       Ob('step_ordering', step_ordering,
          dict(i=I(0, len(STEP_POOL) - 1), j=I(0, len(STEP_POOL) - 1),
               k=I(0, len(STEP_POOL) - 1)), split=('i',), timeout=600, funcs=F,
